@@ -14,7 +14,7 @@ LEVEL = 'fault_enumeration'
 TECHNIQUE = ('runtime monitoring with fault injection: the real parse_folder.main() is run with recorders on every output write (PAGE XML, logits, ALTO, cv2.imwrite) and on page processing; a kill is '
              'injected instead of write number p+1 for every position p, the batch is resumed with -s, and an offline checker compares the final tree and the page-event log with an uninterrupted '
              'reference run; a sample of positions is replayed as real processes killed with os._exit to validate the simulation')
-RULE = ('5 pages x 2 lines (ids a, b.v2, c.jpg_x, d.xml, e.logits.1), cropper + stub OCR; scenario = (subset of the five output kinds, sequence of 1-3 crash positions in 0..#writes, then a final resume). '
+RULE = ('7 pages x 2 lines (ids a, b.v2, c.jpg_x, d.xml, e.logits.1, f, f.b), cropper + stub OCR; scenario = (subset of the five output kinds, sequence of 1-3 crash positions in 0..#writes, then a final resume). '
         'quick: every single crash position for all five outputs, and for each of the other 30 subsets every position inside the first page, inside a middle page and after the last write, + 30 random double/triple crashes + the nothing-to-do runs; thorough: all 31 subsets x every single position, pairs of positions on a (2,3)-grid for three '
         'subsets, 600 random double/triple crashes, real-process kills. non-trivial = at least one crash strictly inside the batch; distinct = hash of (subset, crash sequence)')
 ASSUMPTIONS = ['a kill happens between two output writes (a write itself is atomic); simulated by raising a BaseException subclass instead of the next write, validated against real os._exit kills',
@@ -23,7 +23,7 @@ N = {'quick': 0, 'thorough': 0}      # filled in by scenarios()
 CLASSES = ['single_crash', 'multi_crash', 'no_crash']
 REQUIRED = ['scenarios', 'crash_runs', 'resume_runs', 'crashes_inside_batch', 'final_trees_compared', 'page_events', 'nothing_to_do_runs', 'real_kills_compared']
 KNOWN_CROPS = 'line crops are the only requested output'
-IDS = ('a', 'b.v2', 'c.jpg_x', 'd.xml', 'e.logits.1')
+IDS = ('a', 'b.v2', 'c.jpg_x', 'd.xml', 'e.logits.1', 'f', 'f.b')     # 'f' / 'f.b': file-name order (f.b.png < f.png) and id order (f < f.b) disagree
 ALL = ['xml', 'render', 'logits', 'alto', 'line']
 SHARDS = {'quick': 12, 'thorough': 16}
 TIMEOUT = {'quick': 900, 'thorough': 10800}
@@ -185,6 +185,18 @@ def check(case, mon, ctx):
             mon.violation('complete-pages-not-processed-again', dict(w, reprocessed=sorted(set(pr) & complete), run='second run over a complete tree'), mechanism=known('complete-pages-not-processed-again'))
         if pipeline.snapshot(ref_out) != ref:
             mon.violation('outputs-equal-uninterrupted-run', dict(w, note='a run with nothing to do changed the outputs'))
+        # the same with worker processes requested (only when the run above really had nothing to do: the in-process harness cannot
+        # ship its recorders to worker processes)
+        if pr:
+            return
+        ctx.state['crash_at'], ctx.state['n'] = None, 0
+        del ctx.events[:]; del ctx.proc[:]
+        res2 = pipeline.run_main(ctx.PF, pipeline.argv_for(ctx.root, ref_out, kinds, extra=['--process-count', '2']), crash_exc=Kill)
+        mon.count('nothing_to_do_runs')
+        if res2 != 'ok':
+            mon.violation('nothing-left-to-do-exits-cleanly', dict(w, status=res2, options='--process-count 2'))
+        if pipeline.snapshot(ref_out) != ref:
+            mon.violation('outputs-equal-uninterrupted-run', dict(w, note='a run with nothing to do (--process-count 2) changed the outputs'))
         return
     out = os.path.join(ctx.tmpdir, 'o')
     shutil.rmtree(out, ignore_errors=True)
